@@ -414,7 +414,10 @@ def eval_block(block, acc):
         grammar(e.label, e.pdict, acc, out)
         acc.evaluations += 1
         acc.states.add(e.label)
-        if not e.routed:
+        if not e.routed and (e.mode, e.key) not in C.UNROUTED and e.label not in C.UNPROCESSABLE:
+            # declared in a payload table, but no message ID, variant or alias leads to it: it can neither be built nor parsed
+            out.append((f"declared_message_has_no_message_id|{e.label}", f"{e.key!r} is a key of the payload table but not a name in UBX_MSGIDS"))
+        elif not e.routed:
             acc.note("unrouted_definitions(O10)", e.label)
         elif not C.invalid_types(e.pdict):
             acc.extra["fields_walked"] += namespace(e.label, e, out)
